@@ -2,6 +2,7 @@ import Proofs.Conservation
 import Properties.C03
 import CModel.Generated.Consts
 import Proofs.Orphans
+import Proofs.OrphanBounds
 import Proofs.LedgerDag
 /-!
 # C13 — vertices arriving before their parents are parked and later admitted
@@ -133,6 +134,27 @@ theorem admitted_is_what_was_delivered (b0 : Book) (hq : b0.parked = []) (ops : 
     (u : Vertex) (hu : u ∈ (drun b0 ops).verts) (hnew : u ∉ b0.verts) : DOp.deliver u ∈ ops :=
   ((delivered_is_admitted_or_parked b0 hq ops hb).2.1 u hu).resolve_left hnew
 
+
+/-- **Bounded buffer, bounded retries**: in every run of deliveries (any vertices, any order, any duplicates,
+any outcomes) and retry ticks that starts with an empty buffer, the buffer never holds more than 500
+vertices and no vertex is parked more than 26 times. -/
+theorem buffer_and_retries_bounded (b0 : Book) (hq : b0.parked = []) (ops : List DOp) :
+    (drun b0 ops).parked.length ≤ 500 ∧ ∀ p ∈ (drun b0 ops).parked, p.2 ≤ 26 :=
+  drun_bufInv b0 ops (by rw [hq]; exact bufInv_nil)
+
+/-- **The retries end**: from any state such a run can reach, retry ticks alone empty the buffer - within
+the retries still allowed to the parked vertices (`pot`), in any case within 27 · 500 ticks - whatever the
+ledger answers to each retry. A vertex whose parent never arrives is given up, not retried for ever. -/
+theorem retries_end (b0 : Book) (hq : b0.parked = []) (ops : List DOp) :
+    (ticks (pot (drun b0 ops).parked) (drun b0 ops)).parked = [] ∧ (ticks (27 * 500) (drun b0 ops)).parked = [] :=
+  have h := drun_bufInv b0 ops (by rw [hq]; exact bufInv_nil)
+  ⟨ticks_empty_buffer _ _ h (Nat.le_refl _), ticks_bound _ h⟩
+
+/-- every tick on a non-empty buffer uses up one allowed retry -/
+theorem each_tick_uses_a_retry (b0 : Book) (hq : b0.parked = []) (ops : List DOp) (hne : (drun b0 ops).parked ≠ []) :
+    pot ((drun b0 ops).retryParked).1.parked < pot (drun b0 ops).parked :=
+  retry_uses_potential _ (drun_bufInv b0 ops (by rw [hq]; exact bufInv_nil)) hne
+
 /-- Generated obligations: the bounds are the ones in today's source. -/
 theorem gen_bounds : Generated.accountant_maxArraySize = Book.maxArraySize ∧
     Generated.accountant_maxRepeats = Book.maxRepeats := by decide
@@ -154,5 +176,17 @@ example : AllBenign base [.deliver c1, .deliver p1, .tick] ∧ (drun base [.deli
   · intro r hr; cases hr; exact Or.inl rfl
   · intro r hr; cases hr; trivial
   · intro r hr; cases hr; trivial
+
+def errOf : Except Err Unit → Err
+  | .error e => e
+  | .ok _ => []
+/-- Non-vacuity: an orphan whose parent never arrives is parked with counter 1, re-parked by each of the next
+25 ticks (reported "parent missing"), and dropped by the 26th (reported "rejected"). -/
+example : ((base.addLeaf c1).1.parked.map (·.2)) = [1] ∧
+    ((ticks 25 (base.addLeaf c1).1).parked.map (·.2)) = [26] ∧
+    ((ticks 26 (base.addLeaf c1).1).parked) = [] ∧
+    ((ticks 25 (base.addLeaf c1).1).retryParked.2.map (errOf ·.2)) = some [.leafRejected] ∧
+    ((ticks 24 (base.addLeaf c1).1).retryParked.2.map (errOf ·.2)) = some [.noParent] := by
+  refine ⟨rfl, ?_, ?_, ?_, ?_⟩ <;> decide +kernel
 
 end Props.C13
